@@ -69,6 +69,8 @@ def run(facts, tier):
     fresh_key_rule(facts, res, "R07-5")
     no_id_in_evaluator(facts, res, "R07-6")
     res.functions_analysed = len(fns)
+    from props import c10
+    c10.adjacent_dedup(facts, res, "R07-7")      # duplicate-free means no repetition anywhere, not no adjacent repetition
     return res
 
 
